@@ -2363,7 +2363,7 @@ static int xbar_wait(xbar *b) {
 
 typedef struct failrec {
     int bad;
-    char site[64], kind[32], detail[420];
+    char site[64], kind[32], detail[480];
 } failrec;
 
 typedef struct oprec {
@@ -2503,7 +2503,7 @@ static void hot_loop(worker *w) {
             }
             /* both windows from the start of the 10-byte record (add
              * histories: returned width, then the slot) or 4 bytes back */
-            char got[40], want[40], where[48];
+            char got[40], want[40], where[80];
             size_t from = k >= 4 ? k - 4 : 0;
             where[0] = 0;
             if (H->kind == H_SC_FIRST + ((unsigned)O_TAGGED_ADD - O_SC_FIRST) ||
@@ -2511,9 +2511,11 @@ static void hot_loop(worker *w) {
                 const size_t hdr = H->kind == H_SC_FIRST ? 10 : 9;
                 if (k >= hdr && (k - hdr) / 10 < SC_STEPS) {
                     from = hdr + (k - hdr) / 10 * 10;
-                    snprintf(where, sizeof(where),
-                             " = add #%zu (returned width, slot bytes)",
-                             (k - hdr) / 10);
+                    snprintf(where, sizeof(where), " = add #%zu (%s)",
+                             (k - hdr) / 10,
+                             hdr == 10 ? "returned width, 9 slot bytes"
+                                       : "returned width, caller's width, 8 "
+                                         "slot bytes");
                 }
             }
             hexwin(got, sizeof(got), a, io->nbytes, from, 12);
